@@ -508,6 +508,12 @@ func c06Serve(t []string) *served {
 		rec = newSrvRecBackend(false)
 		rec.midFail = true
 		backend = rec
+	case "recnorange":
+		// a backend that supports no ranged reads (an ociregistry.Funcs without GetBlobRange_, as documented): ranged
+		// requests are refused as unsupported, and whatever the server opens instead it has to close (seed C06-14)
+		rec = newSrvRecBackend(false)
+		rec.Funcs.GetBlobRange_ = nil
+		backend = rec
 	default:
 		backend = c06MemBackend()
 	}
@@ -674,7 +680,7 @@ func (*c06) Gen(rng *RNG, tier string) []Case {
 			}
 			cases = append(cases, Case{Lines: []string{line}})
 		}
-		backend := pick(rng, []string{"rec", "rec", "recfail", "mem", "recmid"})
+		backend := pick(rng, []string{"rec", "rec", "recfail", "mem", "recmid", "recnorange"})
 		opts := fmt.Sprintf("%d%d%d%d", rng.Intn(2), rng.Intn(2), rng.Intn(2), rng.Intn(2))
 		if rng.Chance(1, 3) {
 			opts += pick(rng, []string{"1", "1", "2", "3"}) + pick(rng, []string{"0", "1"})
@@ -684,6 +690,13 @@ func (*c06) Gen(rng *RNG, tier string) []Case {
 			line += " " + tok(h)
 		}
 		cases = append(cases, Case{Lines: []string{line}})
+	}
+	// directed: every Range value against the backend without ranged reads, for blob GETs by a digest the backend has
+	for _, rg := range []string{"bytes=0-4", "bytes=2-", "bytes=9-9", "bytes=10-", "bytes=11-", "bytes=12-", "bytes=20-30", "bytes=0-99", "bytes=5-2"} {
+		for _, opts := range []string{"0000", "0100", "000010"} {
+			line := fmt.Sprintf("srv recnorange %s %s %s %s %s %s", opts, tok("GET"), tok("/v2/foo/blobs/"+sha256Digest([]byte("0123456789"))), tok(""), tok("Range"), tok(rg))
+			cases = append(cases, Case{Tag: "directed-backend-without-ranges", Lines: []string{line}})
+		}
 	}
 	// Content-Range codec: every small pair, plus boundaries
 	var lines []string
